@@ -31,6 +31,7 @@ fn main() {
         "wirecheck" => checks::wirecheck(&args[2..]),
         "foreign" => checks::foreign(&args[2..]),
         "merkle" => checks::merkle(&args[2..]),
+        "seekreplay" => checks::seekreplay(&args[2..]),
         x => {
             eprintln!("unknown subcommand {x}");
             std::process::exit(2);
